@@ -112,15 +112,18 @@ type c04Params struct {
 	inflight bool
 	evAfter  int
 	wire     bool // tier W: real region clients over virtual sockets
+	// when == "step": the events interrupt at scheduling step evStep (-1: never, probe run)
+	evStep int
 }
 
 type c04Obs struct {
-	errs   []error
-	vals   []string
-	calls  []hrpc.Call
-	w      *world
-	done   []bool
-	evLog  []string
+	errs               []error
+	vals               []string
+	calls              []hrpc.Call
+	w                  *world
+	done               []bool
+	evLog              []string
+	startStep, endStep int
 }
 
 func c04Body(p c04Params, out *c04Obs) func() {
@@ -159,6 +162,15 @@ func c04Body(p c04Params, out *c04Obs) func() {
 		}
 		base := len(cl.Attempts)
 		applyAll := func() {
+			if p.when == "step" {
+				late := false
+				tm := vrt.AfterFunc(time.Hour, func() { late = true })
+				vrt.AwaitFirst("h:event-at-step", func() bool { return late || (p.evStep > 0 && vrt.Steps() >= p.evStep) })
+				tm.Stop()
+				if p.evStep < 0 {
+					return
+				}
+			}
 			if p.inflight {
 				// fire after the evAfter-th server-side attempt, or at quiescence if fewer ever happen
 				late := false
@@ -181,6 +193,7 @@ func c04Body(p c04Params, out *c04Obs) func() {
 			}
 		}
 		fin := make(chan int, n+1)
+		out.startStep = vrt.Steps()
 		if p.when == "before" {
 			applyAll()
 		} else {
@@ -205,6 +218,7 @@ func c04Body(p c04Params, out *c04Obs) func() {
 					out.vals[i] = "v:" + k
 				}
 				out.done[i] = true
+				out.endStep = vrt.Steps()
 				vrt.Send(fin, i)
 			})
 		}
@@ -302,6 +316,36 @@ func c04Check(p c04Params, out *c04Obs) func(res *vrt.Result) *explore.Finding {
 	}
 }
 
+func stepSuffix(k int) string {
+	if k == 0 {
+		return ""
+	}
+	return fmt.Sprintf("|at step %d", k)
+}
+
+// c04StepKs lists the scheduling steps of the event-free run at which a thread running
+// client code is resumed while the requests are in progress.
+func c04StepKs(p c04Params, max int) []int {
+	p.when, p.evStep = "step", -1
+	po := &c04Obs{}
+	vrt.Tracing = true
+	res, _ := explore.RunOnce(&explore.Unit{Opt: vrt.Options{MaxSteps: 60000}, Body: c04Body(p, po)}, nil)
+	vrt.Tracing = false
+	var ks []int
+	for i, line := range res.Trace {
+		k := res.TraceSteps[i]
+		name := strings.SplitN(line, " ", 2)[0]
+		if k <= po.startStep || harnessThread(name) && !strings.Contains(name, ":h:req") {
+			continue
+		}
+		if k > po.endStep || len(ks) >= max {
+			break
+		}
+		ks = append(ks, k)
+	}
+	return ks
+}
+
 func c04Units(thorough bool) []*explore.Unit {
 	units := c04AdminUnits(thorough)
 	evs := c04Events()
@@ -312,7 +356,7 @@ func c04Units(thorough bool) []*explore.Unit {
 			names = append(names, evs[e].name)
 		}
 		units = append(units, &explore.Unit{
-			Name: fmt.Sprintf("events=%v|warm=%v|when=%s|fatal=%s|keys=%v|coloc=%v|inflight=%v@%d|wire=%v", names, p.warm, p.when, p.fatal, p.keys, p.coloc, p.inflight, p.evAfter, p.wire), Bound: bound,
+			Name: fmt.Sprintf("events=%v|warm=%v|when=%s|fatal=%s|keys=%v|coloc=%v|inflight=%v@%d|wire=%v%s", names, p.warm, p.when, p.fatal, p.keys, p.coloc, p.inflight, p.evAfter, p.wire, stepSuffix(p.evStep)), Bound: bound,
 			Opt: vrt.Options{MaxSteps: 60000}, Body: c04Body(p, out), Check: c04Check(p, out),
 			Sig: func() string {
 				var sb strings.Builder
@@ -385,6 +429,47 @@ func c04Units(thorough bool) []*explore.Unit {
 			}
 		}
 	}
+	// every single event at every scheduling step of two requests in progress
+	// (vrt.AwaitFirst: the position of the event is a unit parameter)
+	for _, coloc := range []bool{false, true} {
+		// the same on the wire: real region clients, so also every step inside their send
+		// and receive paths (default schedule after the event, thorough <=1 deviation for the hard events)
+		for _, warm := range []bool{true, false} {
+			base := c04Params{warm: warm, keys: []string{"a", "x"}, coloc: coloc, wire: true}
+			for _, k := range c04StepKs(base, 400) {
+				for i, e := range evs {
+					p := base
+					p.when, p.evStep, p.events = "step", k, []int{i}
+					b := 0
+					if thorough && (strings.HasPrefix(e.name, "connreset") || strings.HasPrefix(e.name, "crash") || strings.HasPrefix(e.name, "move(A)")) {
+						b = 1
+					}
+					add(p, b)
+				}
+			}
+		}
+	}
+	for _, coloc := range []bool{false, true} {
+		for _, warm := range []bool{false, true} {
+			base := c04Params{warm: warm, keys: []string{"a", "x"}, coloc: coloc}
+			maxK := 150
+			if thorough {
+				maxK = 400
+			}
+			for _, k := range c04StepKs(base, maxK) {
+				for i, e := range evs {
+					p := base
+					p.when, p.evStep, p.events = "step", k, []int{i}
+					b := 1
+					hard := strings.HasPrefix(e.name, "connreset") || strings.HasPrefix(e.name, "crash") || strings.HasPrefix(e.name, "move(A)")
+					if thorough && hard {
+						b = 2
+					}
+					add(p, b)
+				}
+			}
+		}
+	}
 	for _, sc := range scripts {
 		for _, ks := range keysets {
 			for _, warm := range []bool{true, false} {
@@ -414,8 +499,8 @@ func c04Units(thorough bool) []*explore.Unit {
 func init() {
 	register(&Prop{
 		ID: "C04", Level: "model_checking",
-		Technique: "stateless model checking of the real top-level client over a simulated cluster: every fault script of bounded length x cache warm/cold x event position (before / concurrent, schedules up to a deviation bound), with the cluster's executor as server-side observer",
-		Rule: "fault scripts = every sequence of <=2 (thorough: sampled 3) events from a 19-event menu {move, split, merge, transient NSRE / RegionMoved / RegionOpening / TooBusy / CallQueueTooBig / Throttling / RetryImmediately / PleaseHold bursts, server crash with reassignment, server-stopped and server-aborted exceptions, connection reset, meta move, meta NSRE, ZooKeeper errors} x {1,2} requests (get/put) x cache warm or cold x events applied before the requests (default schedule) or concurrently (all schedules with <=1 deviation, thorough <=2); plus application exception and dropped table. Oracle: every request succeeds with its own value and was executed by a server hosting the owning region at that time (the executor refuses stale region names); fatal errors are returned unchanged and not re-executed. Non-trivial = non-default schedule or non-empty script.",
+		Technique:   "stateless model checking of the real top-level client over a simulated cluster: every fault script of bounded length x cache warm/cold x event position (before / concurrent, schedules up to a deviation bound), with the cluster's executor as server-side observer",
+		Rule:        "fault scripts = every sequence of <=2 (thorough: sampled 3) events from a 19-event menu {move, split, merge, transient NSRE / RegionMoved / RegionOpening / TooBusy / CallQueueTooBig / Throttling / RetryImmediately / PleaseHold bursts, server crash with reassignment, server-stopped and server-aborted exceptions, connection reset, meta move, meta NSRE, ZooKeeper errors} x {1,2} requests (get/put) x cache warm or cold x events applied before the requests (default schedule) or concurrently (all schedules with <=1 deviation, thorough <=2); plus application exception and dropped table. Oracle: every request succeeds with its own value and was executed by a server hosting the owning region at that time (the executor refuses stale region names); fatal errors are returned unchanged and not re-executed. Non-trivial = non-default schedule or non-empty script.",
 		Assumptions: []string{"tier L: region clients are simulated (their internals are C02/C03/C18's subject); the simulated cluster only shows behaviour a real HBase cluster can show", "after the script the cluster is stable"},
 		Quick:       150 * time.Second, Thorough: 25 * time.Minute,
 		Units: c04Units,
